@@ -1,4 +1,578 @@
 import TTV.Model.Stream
 import TTV.Spec.C10
+/-! # C10 — stream consumers account for every test exactly once
+
+All statements are for **every** finite list of `status` events (any ids, route codes, statuses, tags,
+attachments, timestamps; no length bound).
+-/
 namespace TTV.Props.C10
+open TTV.Stream TTV.Spec.C10
+
+/-! ## the tables extracted from the code agree with the property's reading -/
+theorem isFinal_eq (e : Event) : isFinal e = evFinal e := by
+  unfold isFinal evFinal
+  cases h : e.status with
+  | none => simp [finalStatus, Generated.Stream.interim]
+  | some s => cases s <;> simp [finalStatus, Generated.Stream.interim]
+
+theorem counted_eq (s : Status) : Generated.Stream.counted s = (s != .exist) := by cases s <;> rfl
+theorem bucket_eq (s : Status) : Generated.Stream.bucket s = specBucket s := by cases s <;> rfl
+theorem statusMap_eq (s : Status) : Generated.Stream.statusMap s = specOutcome s := by cases s <;> rfl
+
+/-! ## `report` is what the record accumulation computes -/
+theorem lastSome_snoc {α : Type} (xs : List (Option α)) (x : Option α) :
+    lastSome (xs ++ [x]) = match x with | some a => some a | none => lastSome xs := by
+  cases x <;> simp [lastSome, List.filterMap_append]
+
+theorem mem_firsts_aux (acc xs : List Nat) (y : Nat) :
+    y ∈ xs.foldl (fun acc x => if x ∈ acc then acc else acc ++ [x]) acc ↔ y ∈ acc ∨ y ∈ xs := by
+  induction xs generalizing acc with
+  | nil => simp
+  | cons x xs ih =>
+    simp only [List.foldl_cons, ih]
+    by_cases h : x ∈ acc
+    · simp only [h, if_true, List.mem_cons]
+      constructor
+      · rintro (h1 | h1)
+        · exact Or.inl h1
+        · exact Or.inr (Or.inr h1)
+      · rintro (h1 | h1 | h1)
+        · exact Or.inl h1
+        · subst h1; exact Or.inl h
+        · exact Or.inr h1
+    · simp only [h, if_false, List.mem_append, List.mem_cons, List.not_mem_nil, or_false]
+      constructor
+      · rintro ((h1 | h1) | h1)
+        · exact Or.inl h1
+        · exact Or.inr (Or.inl h1)
+        · exact Or.inr (Or.inr h1)
+      · rintro (h1 | h1 | h1)
+        · exact Or.inl (Or.inl h1)
+        · exact Or.inl (Or.inr h1)
+        · exact Or.inr h1
+
+theorem mem_firsts (xs : List Nat) (y : Nat) : y ∈ firsts xs ↔ y ∈ xs := by
+  have := mem_firsts_aux [] xs y
+  simpa [firsts] using this
+
+theorem nodup_firsts_aux (acc xs : List Nat) (h : acc.Nodup) :
+    (xs.foldl (fun acc x => if x ∈ acc then acc else acc ++ [x]) acc).Nodup := by
+  induction xs generalizing acc with
+  | nil => simpa
+  | cons x xs ih =>
+    simp only [List.foldl_cons]
+    apply ih
+    by_cases hx : x ∈ acc
+    · simpa [hx] using h
+    · simp only [hx, if_false]
+      rw [List.nodup_append]
+      refine ⟨h, by simp, ?_⟩
+      intro a ha b hb
+      simp at hb
+      subst hb
+      intro hab; subst hab; exact hx ha
+
+theorem nodup_firsts (xs : List Nat) : (firsts xs).Nodup := nodup_firsts_aux [] xs (by simp)
+
+theorem firsts_snoc (xs : List Nat) (x : Nat) :
+    firsts (xs ++ [x]) = if x ∈ xs then firsts xs else firsts xs ++ [x] := by
+  have hm := mem_firsts xs x
+  simp only [firsts] at hm
+  simp only [firsts, List.foldl_append, List.foldl_cons, List.foldl_nil, hm]
+
+/-- `addFile` on a dict that does not have the name -/
+theorem addFile_new (L : List Nat) (f : Nat → Detail) (hf : ∀ x, (f x).name = x) (n : Nat) (m : Option Nat)
+    (bs : Bytes) (h : n ∉ L) :
+    addFile (L.map f) n m bs = L.map f ++ [{ name := n, mime := m.getD 0, bytes := bs }] := by
+  induction L with
+  | nil => simp [addFile]
+  | cons x L ih =>
+    simp only [List.mem_cons, not_or] at h
+    have hx : ¬ (f x).name = n := by rw [hf]; exact fun hh => h.1 hh.symm
+    simp [addFile, hx, ih h.2]
+
+/-- `addFile` on a dict that has the name (once) -/
+theorem addFile_old (L : List Nat) (f : Nat → Detail) (hf : ∀ x, (f x).name = x) (n : Nat) (m : Option Nat)
+    (bs : Bytes) (h : n ∈ L) (hnd : L.Nodup) :
+    addFile (L.map f) n m bs = L.map (fun x => if x = n then { f x with bytes := (f x).bytes ++ bs } else f x) := by
+  induction L with
+  | nil => simp at h
+  | cons x L ih =>
+    simp only [List.nodup_cons] at hnd
+    by_cases hx : x = n
+    · subst hx
+      simp only [List.map_cons, addFile, hf, ↓reduceIte, List.cons.injEq, true_and]
+      apply List.map_congr_left
+      intro y hy
+      have : y ≠ x := fun hh => hnd.1 (hh ▸ hy)
+      simp [this]
+    · have hn : n ∈ L := by
+        rcases List.mem_cons.mp h with h | h
+        · exact absurd h.symm hx
+        · exact h
+      simp [addFile, hf, hx, ih hn hnd.2]
+
+theorem detailOf_name (cs : List (Nat × Option Nat × Bytes)) (x : Nat) : (detailOf cs x).name = x := rfl
+
+theorem detailOf_snoc_other (cs : List (Nat × Option Nat × Bytes)) (c : Nat × Option Nat × Bytes) (x : Nat)
+    (h : x ≠ c.1) : detailOf (cs ++ [c]) x = detailOf cs x := by
+  have : (c.1 == x) = false := by simp; exact fun hh => h hh.symm
+  simp [detailOf, List.filter_append, this]
+
+theorem detailOf_snoc_new (cs : List (Nat × Option Nat × Bytes)) (n : Nat) (m : Option Nat) (bs : Bytes)
+    (h : n ∉ cs.map (·.1)) : detailOf (cs ++ [(n, m, bs)]) n = { name := n, mime := m.getD 0, bytes := bs } := by
+  have : cs.filter (fun c => c.1 == n) = [] := by
+    rw [List.filter_eq_nil_iff]
+    intro c hc
+    simp only [beq_iff_eq]
+    intro hh
+    exact h (List.mem_map.mpr ⟨c, hc, hh⟩)
+  simp [detailOf, List.filter_append, this]
+
+theorem detailOf_snoc_old (cs : List (Nat × Option Nat × Bytes)) (n : Nat) (m : Option Nat) (bs : Bytes)
+    (h : n ∈ cs.map (·.1)) :
+    detailOf (cs ++ [(n, m, bs)]) n = { detailOf cs n with bytes := (detailOf cs n).bytes ++ bs } := by
+  obtain ⟨c, hc, hcn⟩ := List.mem_map.mp h
+  have hne : cs.filter (fun c => c.1 == n) ≠ [] := by
+    intro hh
+    rw [List.filter_eq_nil_iff] at hh
+    exact hh c hc (by simpa using hcn)
+  cases hf : cs.filter (fun c => c.1 == n) with
+  | nil => exact absurd hf hne
+  | cons d ds => simp [detailOf, List.filter_append, hf]
+
+theorem details_snoc (cs : List (Nat × Option Nat × Bytes)) (n : Nat) (m : Option Nat) (bs : Bytes) :
+    (firsts ((cs ++ [(n, m, bs)]).map (·.1))).map (detailOf (cs ++ [(n, m, bs)]))
+      = addFile ((firsts (cs.map (·.1))).map (detailOf cs)) n m bs := by
+  simp only [List.map_append, List.map_cons, List.map_nil, firsts_snoc]
+  by_cases h : n ∈ cs.map (·.1)
+  · simp only [h, ↓reduceIte]
+    rw [addFile_old _ _ (detailOf_name cs) n m bs ((mem_firsts _ _).mpr h) (nodup_firsts _)]
+    apply List.map_congr_left
+    intro x _
+    by_cases hx : x = n
+    · subst hx
+      simp only [↓reduceIte]
+      exact detailOf_snoc_old cs x m bs h
+    · simp only [hx, ↓reduceIte]
+      exact detailOf_snoc_other cs (n, m, bs) x hx
+  · simp only [h, ↓reduceIte]
+    rw [addFile_new _ _ (detailOf_name cs) n m bs (fun hh => h ((mem_firsts _ _).mp hh))]
+    simp only [List.map_append, List.map_cons, List.map_nil]
+    congr 1
+    · apply List.map_congr_left
+      intro x hx
+      have : x ≠ n := fun hh => h (hh ▸ (mem_firsts _ _).mp hx)
+      exact detailOf_snoc_other cs (n, m, bs) x this
+    · simp [detailOf_snoc_new cs n m bs h]
+
+/-- one more event: the declarative report follows `_update_case` -/
+theorem report_snoc (id : Nat) (a : Event) (l : List Event) (e : Event) :
+    report id (a :: l ++ [e]) true = upd (report id (a :: l) true) e := by
+  have hd : (a :: l ++ [e]).head? = (a :: l).head? := by simp
+  have hl : (a :: l ++ [e]).getLast? = some e := by
+    rw [show a :: l ++ [e] = (a :: l) ++ [e] by simp]; exact List.getLast?_concat ..
+  simp only [report, upd, hl, List.map_append, List.map_cons, List.map_nil, lastSome_snoc,
+    List.filterMap_append, List.filterMap_cons, List.filterMap_nil, ↓reduceIte, Option.bind_some]
+  cases hc : chunk e with
+  | none =>
+    have hdet : (match e.fileName, e.fileBytes with
+        | some n, some (b :: bs) => (none : Option Unit) | _, _ => some ()) = some () := by
+      unfold chunk at hc
+      split at hc <;> simp_all
+    cases hs : e.status <;> cases ht : e.tags <;> cases hn : e.fileName <;> cases hb : e.fileBytes <;>
+      simp_all [chunk] <;> (rename_i bs; cases bs <;> simp_all)
+  | some c =>
+    obtain ⟨n, m, bs⟩ := c
+    unfold chunk at hc
+    split at hc
+    · rename_i n' b bs' hn hb
+      simp only [Option.some.injEq, Prod.mk.injEq] at hc
+      obtain ⟨rfl, rfl, rfl⟩ := hc
+      have := details_snoc ((a :: l).filterMap chunk) n' e.mime (b :: bs')
+      simp only [List.filterMap_cons] at this
+      cases hs : e.status <;> cases ht : e.tags <;> simp_all
+    · simp at hc
+
+theorem report_single (id : Nat) (e : Event) : report id [e] true = upd (create id e) e := by
+  simp only [report, upd, create, List.map_cons, List.map_nil, List.filterMap_cons, List.filterMap_nil,
+    List.head?_cons, List.getLast?_singleton, Option.bind_some, ↓reduceIte]
+  have hl : ∀ {α : Type} (x : Option α), lastSome [x] = x := by
+    intro α x; cases x <;> simp [lastSome]
+  simp only [hl]
+  cases hc : chunk e with
+  | none =>
+    unfold chunk at hc
+    cases hs : e.status <;> cases ht : e.tags <;> cases hn : e.fileName <;> cases hb : e.fileBytes <;>
+      simp_all [firsts] <;> (rename_i bs; cases bs <;> simp_all)
+  | some c =>
+    obtain ⟨n, m, bs⟩ := c
+    unfold chunk at hc
+    split at hc
+    · rename_i n' b bs' hn hb
+      simp only [Option.some.injEq, Prod.mk.injEq] at hc
+      obtain ⟨rfl, rfl, rfl⟩ := hc
+      cases hs : e.status <;> cases ht : e.tags <;> simp_all [firsts, detailOf, addFile]
+    · simp at hc
+
+
+/-- the record of a lifetime is the fold of `_update_case` over its events, from the record created by its first -/
+theorem report_fold (id : Nat) (a : Event) (l : List Event) :
+    report id (a :: l) true = l.foldl upd (upd (create id a) a) := by
+  obtain ⟨r, rfl⟩ : ∃ r, l = r.reverse := ⟨l.reverse, by simp⟩
+  induction r with
+  | nil => exact report_single id a
+  | cons e r ih =>
+    rw [List.reverse_cons, List.foldl_append, ← ih]
+    exact report_snoc id a r.reverse e
+
+theorem report_open (id : Nat) (l : List Event) : { report id l true with ts1 := none } = report id l false := by
+  simp [report]
+
+/-! ## lifetimes: elementary facts -/
+theorem openTail_snoc (acc xs : List Event) (e : Event) :
+    openTail acc (xs ++ [e]) = if evFinal e then [] else openTail acc xs ++ [e] := by
+  induction xs generalizing acc with
+  | nil => simp [openTail]
+  | cons x xs ih =>
+    simp only [List.cons_append, openTail]
+    split <;> exact ih _
+
+theorem proj_snoc_self (k : Key) (es : List Event) (e : Event) (h : key e = some k) :
+    proj k (es ++ [e]) = proj k es ++ [e] := by simp [proj, List.filter_append, h]
+theorem proj_snoc_other (k : Key) (es : List Event) (e : Event) (h : key e ≠ some k) :
+    proj k (es ++ [e]) = proj k es := by
+  have : (key e == some k) = false := by simpa using h
+  simp [proj, List.filter_append, this]
+theorem proj_cons_self (k : Key) (es : List Event) (e : Event) (h : key e = some k) :
+    proj k (e :: es) = e :: proj k es := by simp [proj, h]
+theorem proj_cons_other (k : Key) (es : List Event) (e : Event) (h : key e ≠ some k) :
+    proj k (e :: es) = proj k es := by
+  have : (key e == some k) = false := by simpa using h
+  simp [proj, this]
+
+theorem cur_snoc_self (k : Key) (es : List Event) (e : Event) (h : key e = some k) :
+    cur k (es ++ [e]) = if evFinal e then [] else cur k es ++ [e] := by
+  simp only [cur, proj_snoc_self k es e h, openTail_snoc]
+theorem cur_snoc_other (k : Key) (es : List Event) (e : Event) (h : key e ≠ some k) :
+    cur k (es ++ [e]) = cur k es := by simp only [cur, proj_snoc_other k es e h]
+
+/-! ## the table -/
+def keys (t : Tbl) : List Key := t.map (·.1)
+
+theorem get_none_iff (t : Tbl) (k : Key) : t.get k = none ↔ k ∉ keys t := by
+  induction t with
+  | nil => simp [Tbl.get, keys]
+  | cons p t ih =>
+    obtain ⟨k', a⟩ := p
+    simp only [Tbl.get, keys, List.map_cons, List.mem_cons, not_or]
+    by_cases h : k' = k
+    · simp [h]
+    · simp only [h, if_false]
+      rw [ih]
+      simp only [keys]
+      constructor
+      · intro hh; exact ⟨fun e => h e.symm, hh⟩
+      · intro hh; exact hh.2
+
+theorem get_del_self (t : Tbl) (k : Key) : (t.del k).get k = none := by
+  induction t with
+  | nil => rfl
+  | cons p t ih =>
+    obtain ⟨k', a⟩ := p
+    simp only [Tbl.del]
+    split
+    · exact ih
+    · simp [Tbl.get, *]
+
+theorem get_del_other (t : Tbl) (k k' : Key) (h : k' ≠ k) : (t.del k').get k = t.get k := by
+  induction t with
+  | nil => rfl
+  | cons p t ih =>
+    obtain ⟨k2, a⟩ := p
+    simp only [Tbl.del, Tbl.get]
+    split
+    · rename_i h2; subst h2; simp [h, ih]
+    · simp [Tbl.get, ih]
+
+theorem get_set_self (t : Tbl) (k : Key) (a : Report) : (t.set k a).get k = some a := by
+  induction t with
+  | nil => simp [Tbl.set, Tbl.get]
+  | cons p t ih =>
+    obtain ⟨k2, a2⟩ := p
+    simp only [Tbl.set]
+    split
+    · simp [Tbl.get]
+    · simp [Tbl.get, *]
+
+theorem get_set_other (t : Tbl) (k k' : Key) (a : Report) (h : k' ≠ k) : (t.set k' a).get k = t.get k := by
+  induction t with
+  | nil => simp [Tbl.set, Tbl.get, h]
+  | cons p t ih =>
+    obtain ⟨k2, a2⟩ := p
+    simp only [Tbl.set]
+    split
+    · rename_i h2; subst h2; simp [Tbl.get, h]
+    · simp [Tbl.get, ih]
+
+theorem set_new (t : Tbl) (k : Key) (a : Report) (h : k ∉ keys t) : t.set k a = t ++ [(k, a)] := by
+  induction t with
+  | nil => rfl
+  | cons p t ih =>
+    obtain ⟨k', a'⟩ := p
+    simp only [keys, List.map_cons, List.mem_cons, not_or] at h
+    have : ¬ k' = k := fun e => h.1 e.symm
+    simp [Tbl.set, this, ih h.2]
+
+theorem keys_set_old (t : Tbl) (k : Key) (a : Report) (h : k ∈ keys t) : keys (t.set k a) = keys t := by
+  induction t with
+  | nil => simp [keys] at h
+  | cons p t ih =>
+    obtain ⟨k', a'⟩ := p
+    simp only [Tbl.set]
+    split
+    · rename_i hk; simp [keys, hk]
+    · rename_i hk
+      simp only [keys, List.map_cons, List.mem_cons] at h
+      rcases h with h | h
+      · exact absurd h.symm hk
+      · simp only [keys, List.map_cons, List.cons.injEq, true_and]; exact ih h
+
+theorem keys_del (t : Tbl) (k : Key) : keys (t.del k) = (keys t).filter (· != k) := by
+  induction t with
+  | nil => rfl
+  | cons p t ih =>
+    obtain ⟨k', a'⟩ := p
+    simp only [Tbl.del]
+    split
+    · rename_i hk; simp [keys, hk]; exact ih
+    · rename_i hk
+      have : (k' != k) = true := by simpa using hk
+      simp only [keys, List.map_cons, List.filter_cons, this, if_true, List.cons.injEq, true_and]
+      exact ih
+
+/-- the table holds exactly the open lifetimes: one record per key with an open lifetime, and that record
+is the report of the lifetime so far -/
+structure Inv (pre : List Event) (t : Tbl) : Prop where
+  nodup : (keys t).Nodup
+  get : ∀ k, t.get k = match cur k pre with | [] => none | a :: l => some (report k.1 (a :: l) true)
+
+theorem inv_nil : Inv [] [] := ⟨by simp [keys], by intro k; simp [Tbl.get, cur, proj, openTail]⟩
+
+theorem step_key_none (t : Tbl) (e : Event) (h : key e = none) : step t e = (t, []) := by simp [step, h]
+
+/-- the record `status()` works on, after `_update_case` -/
+theorem step_record (pre : List Event) (t : Tbl) (hI : Inv pre t) (e : Event) (k : Key) (hk : key e = some k) :
+    upd ((t.get k).getD (create k.1 e)) e = report k.1 (cur k pre ++ [e]) true := by
+  rw [hI.get k]
+  cases hc : cur k pre with
+  | nil => simp [report_single]
+  | cons a l => simp only [List.cons_append]; exact (report_snoc k.1 a l e).symm
+
+theorem inv_step (pre : List Event) (t : Tbl) (hI : Inv pre t) (e : Event) : Inv (pre ++ [e]) (step t e).1 := by
+  cases hk : key e with
+  | none =>
+    rw [step_key_none t e hk]
+    refine ⟨hI.nodup, fun k => ?_⟩
+    rw [cur_snoc_other k pre e (by simp [hk])]
+    exact hI.get k
+  | some k =>
+    have hrec := step_record pre t hI e k hk
+    simp only [step, hk, isFinal_eq]
+    by_cases hf : evFinal e
+    · simp only [hf, if_true]
+      refine ⟨by rw [keys_del]; exact hI.nodup.filter _, fun k' => ?_⟩
+      by_cases hkk : k = k'
+      · subst hkk
+        rw [get_del_self, cur_snoc_self k pre e hk]
+        simp [hf]
+      · rw [get_del_other _ _ _ hkk, cur_snoc_other k' pre e (by simp [hk, hkk])]
+        exact hI.get k'
+    · simp only [hf, Bool.false_eq_true, if_false]
+      refine ⟨?_, fun k' => ?_⟩
+      · by_cases hm : k ∈ keys t
+        · rw [keys_set_old _ _ _ hm]; exact hI.nodup
+        · rw [set_new _ _ _ hm]
+          simp only [keys, List.map_append, List.map_cons, List.map_nil]
+          rw [List.nodup_append]
+          refine ⟨hI.nodup, by simp, ?_⟩
+          intro a ha b hb
+          simp at hb; subst hb
+          intro hab; subst hab; exact hm ha
+      · by_cases hkk : k = k'
+        · subst hkk
+          rw [get_set_self, cur_snoc_self k pre e hk, hrec]
+          simp only [hf, Bool.false_eq_true, if_false]
+          cases hc : cur k pre <;> simp
+        · rw [get_set_other _ _ _ _ hkk, cur_snoc_other k' pre e (by simp [hk, hkk])]
+          exact hI.get k'
+
+/-- closed lifetimes are reported when (and in the order in which) their final events arrive -/
+theorem run_closed (pre : List Event) (t : Tbl) (hI : Inv pre t) (es : List Event) :
+    (run t es).2.map (·.2) = closedReports pre es := by
+  induction es generalizing pre t with
+  | nil => simp [run, closedReports]
+  | cons e es ih =>
+    simp only [run, closedReports, List.map_append]
+    rw [ih (pre ++ [e]) _ (inv_step pre t hI e)]
+    congr 1
+    cases hk : key e with
+    | none => simp [step, hk]
+    | some k =>
+      have hrec := step_record pre t hI e k hk
+      simp only [step, hk, isFinal_eq]
+      by_cases hf : evFinal e
+      · simp [hf, hrec]
+      · simp [hf]
+
+
+/-! ## the open lifetimes: what is left in the table when the run stops, and in which order -/
+/-- the lifetimes still open at the end, keyed, in the order in which they begin (with their last timestamp) -/
+def openKeyed (pre : List Event) : List Event → List (Key × Report)
+  | [] => []
+  | e :: post =>
+    (match key e with
+     | some k =>
+        if !evFinal e && (cur k pre).isEmpty && !(proj k post).any evFinal
+        then [(k, report k.1 (e :: proj k post) true)] else []
+     | none => []) ++ openKeyed (pre ++ [e]) post
+
+theorem openReports_eq (pre es : List Event) :
+    openReports pre es = (openKeyed pre es).map fun p => { p.2 with ts1 := none } := by
+  induction es generalizing pre with
+  | nil => rfl
+  | cons e es ih =>
+    simp only [openReports, openKeyed, List.map_append, ih]
+    congr 1
+    cases key e with
+    | none => rfl
+    | some k => dsimp only; split <;> simp [report_open]
+
+/-- entries of the table that are not closed by the events `es`, updated by their events in `es` -/
+def survive (es : List Event) (t : Tbl) : Tbl :=
+  (t.filter fun p => !(proj p.1 es).any evFinal).map fun p => (p.1, (proj p.1 es).foldl upd p.2)
+
+theorem survive_cons_notin (e : Event) (es : List Event) (t : Tbl) (h : ∀ k ∈ keys t, key e ≠ some k) :
+    survive (e :: es) t = survive es t := by
+  induction t with
+  | nil => rfl
+  | cons p t ih =>
+    have hp : proj p.1 (e :: es) = proj p.1 es := proj_cons_other _ _ _ (h p.1 (by simp [keys]))
+    have := ih (fun k hk => h k (by simp only [keys, List.map_cons, List.mem_cons]; exact Or.inr hk))
+    simp only [survive, List.filter_cons, hp] at this ⊢
+    split <;> simp [this, hp]
+
+theorem survive_del (e : Event) (es : List Event) (k : Key) (hk : key e = some k) (hf : evFinal e = true) (t : Tbl) :
+    survive es (t.del k) = survive (e :: es) t := by
+  induction t with
+  | nil => rfl
+  | cons p t ih =>
+    obtain ⟨k', a⟩ := p
+    simp only [Tbl.del]
+    by_cases h : k' = k
+    · subst h
+      simp only [if_true, ih]
+      simp [survive, List.filter_cons, proj_cons_self k' es e hk, hf]
+    · have hp : proj k' (e :: es) = proj k' es := proj_cons_other _ _ _ (by simp [hk]; exact fun hh => h hh.symm)
+      simp only [h, if_false]
+      simp only [survive, List.filter_cons, hp] at ih ⊢
+      split <;> simp [ih, hp]
+
+theorem survive_set (e : Event) (es : List Event) (k : Key) (hk : key e = some k) (hf : evFinal e = false) (d : Report)
+    (t : Tbl) (hn : (keys t).Nodup) (hm : k ∈ keys t) :
+    survive es (t.set k (upd ((t.get k).getD d) e)) = survive (e :: es) t := by
+  induction t with
+  | nil => simp [keys] at hm
+  | cons p t ih =>
+    obtain ⟨k', a⟩ := p
+    simp only [keys, List.map_cons, List.nodup_cons] at hn
+    by_cases h : k' = k
+    · subst h
+      have hrest : survive (e :: es) t = survive es t :=
+        survive_cons_notin e es t (fun k2 hk2 hh => by
+          rw [hk] at hh; simp only [Option.some.injEq] at hh; subst hh; exact hn.1 hk2)
+      simp only [Tbl.set, Tbl.get, if_true, Option.getD_some]
+      simp only [survive, List.filter_cons, proj_cons_self k' es e hk, List.any_cons, hf, Bool.false_or,
+        List.foldl_cons] at hrest ⊢
+      split <;> simp [hrest, proj_cons_self k' es e hk]
+    · have hp : proj k' (e :: es) = proj k' es := proj_cons_other _ _ _ (by simp [hk]; exact fun hh => h hh.symm)
+      have hm' : k ∈ keys t := by
+        simp only [keys, List.map_cons, List.mem_cons] at hm
+        rcases hm with hm | hm
+        · exact absurd hm.symm h
+        · exact hm
+      have := ih hn.2 hm'
+      simp only [Tbl.set, Tbl.get, h, if_false]
+      simp only [survive, List.filter_cons, hp] at this ⊢
+      split <;> simp [this, hp]
+
+theorem survive_append (es : List Event) (t u : Tbl) : survive es (t ++ u) = survive es t ++ survive es u := by
+  simp [survive]
+
+/-- the table after a run of events: the surviving old entries in place, then the lifetimes begun since, in
+the order in which they began -/
+theorem run_table (pre : List Event) (t : Tbl) (hI : Inv pre t) (es : List Event) :
+    (run t es).1 = survive es t ++ openKeyed pre es := by
+  induction es generalizing pre t with
+  | nil =>
+    simp only [run, openKeyed, survive, proj, List.filter_nil, List.any_nil, Bool.not_false, List.foldl_nil, List.append_nil]
+    clear hI
+    induction t with
+    | nil => rfl
+    | cons p t ih => simpa using ih
+  | cons e es ih =>
+    simp only [run, openKeyed]
+    rw [ih (pre ++ [e]) _ (inv_step pre t hI e)]
+    rw [← List.append_assoc]
+    congr 1
+    cases hk : key e with
+    | none =>
+      rw [step_key_none t e hk, survive_cons_notin e es t (by simp [hk])]
+      simp
+    | some k =>
+      simp only [step, hk, isFinal_eq]
+      by_cases hf : evFinal e
+      · simp [hf, survive_del e es k hk hf t]
+      · simp only [Bool.not_eq_true] at hf
+        simp only [hf, Bool.false_eq_true, if_false, Bool.not_false, Bool.true_and]
+        by_cases hm : k ∈ keys t
+        · have hc : (cur k pre).isEmpty = false := by
+            have h1 := hI.get k
+            have h2 : t.get k ≠ none := fun hh => (get_none_iff t k).mp hh hm
+            cases hcur : cur k pre with
+            | nil => rw [hcur] at h1; exact absurd h1 h2
+            | cons a l => rfl
+          rw [survive_set e es k hk hf _ t hI.nodup hm]
+          simp [hc]
+        · have hg : t.get k = none := (get_none_iff t k).mpr hm
+          have hc : (cur k pre).isEmpty = true := by
+            have h1 := hI.get k
+            rw [hg] at h1
+            cases hcur : cur k pre with
+            | nil => rfl
+            | cons a l => rw [hcur] at h1; simp at h1
+          rw [set_new _ _ _ hm, survive_append,
+            survive_cons_notin e es t (fun k2 hk2 hh => by
+              rw [hk] at hh; simp only [Option.some.injEq] at hh; subst hh; exact hm hk2)]
+          congr 1
+          simp only [hg, Option.getD_none, hc, Bool.true_and]
+          simp only [survive, List.filter_cons, List.filter_nil]
+          split
+          · simp [report_fold]
+          · rfl
+
+theorem consumeKeyed_eq (es : List Event) :
+    consumeKeyed es = (run [] es).2 ++ ((openKeyed [] es).reverse.map fun p => (p.1, { p.2 with ts1 := none })) := by
+  simp only [consumeKeyed, flush, run_table [] [] inv_nil es]
+  simp [survive]
+
+/-- **C10 (refinement)**: for every event list the callbacks made by the table-based consumer
+(`_StreamToTestRecord`, hence `StreamToDict`) are exactly the reports of the lifetimes: each closed lifetime
+when its final status arrives, then at `stopTestRun` the open ones, most recently begun first, without second
+timestamp. -/
+theorem C10_refines (es : List Event) : consume es = reports es := by
+  simp only [consume, consumeKeyed_eq, List.map_append, reports]
+  rw [run_closed [] [] inv_nil es, openReports_eq]
+  simp [List.map_reverse]
+
 end TTV.Props.C10
